@@ -20,6 +20,7 @@ var opcodes = map[string]byte{
 	"MLOAD": 0x51, "MSTORE": 0x52, "SLOAD": 0x54, "SSTORE": 0x55, "JUMP": 0x56, "JUMPI": 0x57, "GAS": 0x5a,
 	"JUMPDEST": 0x5b, "LOG0": 0xa0, "LOG1": 0xa1, "LOG3": 0xa3, "CALL": 0xf1, "RETURN": 0xf3, "REVERT": 0xfd,
 	"SELFDESTRUCT": 0xff, "RETURNDATASIZE": 0x3d, "RETURNDATACOPY": 0x3e, "CODECOPY": 0x39, "SELFBALANCE": 0x47,
+	"CODESIZE": 0x38, "EXTCODESIZE": 0x3b, "EXTCODECOPY": 0x3c, "CREATE": 0xf0, "DELEGATECALL": 0xf4,
 }
 
 // assemble: one token per whitespace; "name:" defines a label (emits JUMPDEST),
@@ -79,6 +80,7 @@ func assemble(src string) []byte {
 //   04                                         REVERT
 //   05 addr(32)                                BALANCE (loads the account into the StateDB cache)
 //   06 addr(32)                                SELFDESTRUCT to addr (halts the frame)
+//   07 flags(1) value(32) len(32) initcode(len) CREATE with that init code; flags bit0 / bit1 as for CALL (success = an address came back)
 //   anything else / end of calldata            STOP
 const scriptAsm = `
   0 0 MSTORE
@@ -92,6 +94,7 @@ loop:
   DUP1 4 EQ @do_revert JUMPI
   DUP1 5 EQ @do_balance JUMPI
   DUP1 6 EQ @do_selfdestruct JUMPI
+  DUP1 7 EQ @do_create JUMPI
 stop:
   STOP
 do_sstore:
@@ -116,6 +119,24 @@ do_balance:
 do_selfdestruct:
   POP
   DUP1 1 ADD CALLDATALOAD SELFDESTRUCT
+do_create:
+  POP
+  DUP1 34 ADD CALLDATALOAD
+  DUP1 DUP3 66 ADD 0x80 CALLDATACOPY
+  DUP1 0x80 DUP4 2 ADD CALLDATALOAD
+  CREATE
+  ISZERO ISZERO
+  DUP3 1 ADD CALLDATALOAD 0 BYTE
+  DUP1 2 AND ISZERO @cr_norecord JUMPI
+  DUP2 1 ADD
+  DUP5 0xC0DE0000 ADD
+  SSTORE
+cr_norecord:
+  1 AND
+  OR
+  ISZERO @do_revert JUMPI
+  ADD 66 ADD 0 MSTORE
+  @loop JUMP
 do_call:
   POP
   DUP1 66 ADD CALLDATALOAD
@@ -173,6 +194,48 @@ func encSelfdestruct(addr []byte) []byte {
 	copy(w[12:], addr)
 	return append([]byte{6}, w...)
 }
+// encCreate: CREATE instruction of the script; initcode from ctorInit
+func encCreate(flags byte, value *big.Int, initcode []byte) []byte {
+	out := []byte{7, flags}
+	out = append(out, word(value)...)
+	out = append(out, wordU(uint64(len(initcode)))...)
+	return append(out, initcode...)
+}
+
+// ctorInit builds init code whose constructor runs `script` AS THE NEW CONTRACT (DELEGATECALL into the library copy of
+// the script interpreter with the script as calldata), reverts when the script fails, and then returns the
+// interpreter as runtime code (setcode) or empty runtime code.  Layout: stub ++ script.
+func ctorInit(lib []byte, script []byte, setcode bool) []byte {
+	libHex := fmt.Sprintf("0x%x", lib)
+	ret := "0 0 RETURN"
+	if setcode {
+		ret = libHex + " EXTCODESIZE DUP1 0 0 " + libHex + " EXTCODECOPY 0 RETURN"
+	}
+	mk := func(stubLen int) []byte {
+		return assemble(fmt.Sprintf(`
+  %d CODESIZE SUB
+  DUP1 %d 0x80 CODECOPY
+  0 0 DUP3 0x80 %s GAS DELEGATECALL
+  ISZERO @fail JUMPI
+  POP
+  %s
+fail:
+  0 0 REVERT
+`, stubLen, stubLen, libHex, ret))
+	}
+	// the stub's length enters the stub as a push of fixed width: two passes with a 2-byte value
+	n := len(mk(0x0100))
+	stub := mk(n)
+	if len(stub) != n {
+		n = len(stub)
+		stub = mk(n)
+	}
+	if len(stub) != n {
+		panic("ctorInit: unstable stub length")
+	}
+	return append(stub, script...)
+}
+
 func encCall(flags byte, target []byte, value *big.Int, payload []byte) []byte {
 	w := make([]byte, 32)
 	copy(w[12:], target)
